@@ -413,3 +413,27 @@ Example sowr_nonvacuous_wrap :
              4 (two32 - 4) 2 scripts (repeat (0, 0) 11 ++ repeat (1, 0) 5 ++ repeat (0, 0) 9)%nat in
   s_alloc s = 1 /\ s_A s = two32 + 1 /\ s_out s = [(2, 0); (3, 0); (0, 0)]%nat /\ s_dups s = 0%nat /\ s_badnull s = 0%nat.
 Proof. vm_compute. repeat split; reflexivity. Qed.
+
+(* visibility for the sowr pool: the pool has no plain data that crosses threads.  alloc_idx and
+   cached_free_pos are read and written only at the program points below, and only the allocator thread
+   is ever there; free_idx is accessed only through atomic operations (relaxed: it carries no view, and
+   the pool hands no plain data from the freer to the allocator).  Block payloads travel through the
+   caller's own channel (Appendix B) and are outside the pool. *)
+Definition touches_private (x : sthread) : bool :=
+  match s_pc x with
+  | SLoad _ | SAfter _ _ _ => true
+  | SBegin => match s_script x with OpAlloc :: _ => true | _ => false end
+  | _ => false
+  end.
+
+Corollary sowr_plain_fields_private_all P cap base a f n scripts sched :
+  sowr_geometry cap base -> sowr_usage a f scripts ->
+  forall t, t <> a -> touches_private (s_thr (sowr_run P cap base n scripts sched) t) = false.
+Proof.
+  intros Hg Hu t Ht. pose proof (si_thr _ _ _ _ (sowr_invariants P cap base a f n scripts sched Hg Hu) t) as K.
+  unfold sthr_ok in K. destruct K as (Ka & _ & Kp). specialize (Ka Ht). unfold touches_private.
+  destruct (s_pc (s_thr _ t)); try reflexivity.
+  - destruct (s_script (s_thr _ t)) as [|[| |] r]; try reflexivity. unfold has_alloc in Ka. simpl in Ka. discriminate.
+  - destruct Kp as [E _]. contradiction.
+  - destruct Kp as [E _]. contradiction.
+Qed.
